@@ -52,6 +52,8 @@ type ProcScript struct {
 	// TeardownErr: error text every Teardown of the processor returns ("" = none).
 	TeardownErr string `json:",omitempty"`
 	LatencyUs   []int
+	// OpenLatencyUs: generation -> time Open takes (logged as a note when it starts).
+	OpenLatencyUs map[int]int `json:",omitempty"`
 }
 
 // KindOf is the scripted result kind for a record (ignoring cut-short).
@@ -148,6 +150,10 @@ func (s *procSession) getGen() int {
 
 func (s *procSession) Open(context.Context) error {
 	gen := s.getGen()
+	if us := s.st.Script.OpenLatencyUs[gen]; us > 0 {
+		s.st.p.Log.Append(Ev{Kind: KNote, Comp: s.st.ID, Role: "proc", Sess: s.sess, Gen: gen, Note: "open-start"})
+		time.Sleep(time.Duration(us) * time.Microsecond)
+	}
 	if msg, ok := s.st.Script.OpenErr[gen]; ok {
 		s.st.p.Log.Append(Ev{Kind: KProcOpen, Comp: s.st.ID, Role: "proc", Sess: s.sess, Gen: gen, Err: msg})
 		return errors.New(msg)
